@@ -176,7 +176,10 @@ PROPS = {
             "(total compression, block of the empty input is 00, UncompressBlock restores when the buffer fits and errs when it does not, "
             "ratio <= 255, CompressBlockBound / MaxEncodedLen); each clause is observed on every harness input but not proved"],
         "assumptions": [
-            "third-party block codecs satisfy Lz4Law / SnappyLaw (hypotheses of the theorems; satisfiable: literalCodec)",
+            "third-party block codecs satisfy Lz4Law / SnappyLaw (hypotheses of the theorems; satisfiable: literalCodec). The harness has "
+            "OBSERVED the clause uncompress_fits to be false for pierrec/lz4 v4.0.3 on a few inputs (repetitions of an 8-byte pattern, "
+            "65555..65560 bytes: CompressBlock emits a block UncompressBlock rejects) — recorded as a known finding; for such inputs the "
+            "theorems' hypothesis does not hold and the real round trip fails",
             "frame bodies below 2^32 bytes (the 4-byte length prefix); C08_lz4_withLength_prefix_wraps shows the limit is sharp",
         ],
     },
